@@ -49,7 +49,7 @@ func Index(collection, key cty.Value, srcRange *Range) (cty.Value, Diagnostics) 
 	ty := collection.Type()
 	kty := key.Type()
 	if kty == cty.DynamicPseudoType || ty == cty.DynamicPseudoType {
-		return cty.DynamicVal.WithSameMarks(collection), nil
+		return cty.DynamicVal.WithSameMarks(collection, key), nil
 	}
 
 	switch {
@@ -87,9 +87,9 @@ func Index(collection, key cty.Value, srcRange *Range) (cty.Value, Diagnostics) 
 		has, _ := collection.HasIndex(key).Unmark()
 		if !has.IsKnown() {
 			if ty.IsTupleType() {
-				return cty.DynamicVal.WithSameMarks(collection), nil
+				return cty.DynamicVal.WithSameMarks(collection, key), nil
 			} else {
-				return cty.UnknownVal(ty.ElementType()).WithSameMarks(collection), nil
+				return cty.UnknownVal(ty.ElementType()).WithSameMarks(collection, key), nil
 			}
 		}
 		if has.False() {
